@@ -23,6 +23,7 @@ EXPLANATION = (
     "NOT decided: normalisation/positivity of evolved states, Rabi oscillation, legacy/V2 agreement (runtime numerics). SIB (added): the unflipped sample is returned only when both detection rates are zero (or none is configured); sample_final_state delegates to the overridable sample_state; set_config and add_config both keep the initial state iff the dimension is unchanged. WEIGHT: every Monte-Carlo term carries the multiplicity of its run and the sum is divided by the total. SUFFIX: a basis name that may carry '_with_error' is never tested with ==. PASS: every call of _run_solver/_noisy_runs hands over options that passed _validate_options. UNIT: the total duration is converted from ns to us by one idiom everywhere in the emulator."
     " Round 4 (added): the observables' own evaluation times are merged into the solver times under a condition that does not depend on default_evaluation_times; the V2 states are labelled with the emulator's Hamiltonian.eigenbasis (KNOWN finding: they are not); the single-run shortcut of QutipEmulator.run and QutipBackendV2.run is taken under the same condition and excludes every noise type _noisy_runs redraws; the legacy time lookup returns the closest stored time or uses a tolerance below half a grid step (KNOWN finding: first match within a whole step)."
     " Round 5 (added): the bad-atom mask is read off the bit characters (no str->bool cast); the V2 config holds the emulated noise model; the initial state's eigenstate order is honoured; results are stored at configured times (KNOWN); single-pass bitstring conversion."
+    " Round 6 (added after the fifth independent round of breaking changes): the initial state's eigenstates are compared as ordered tuples (no set / sorted / Counter); in the configuration rebuilt around the emulated noise model the 'noise_model' key follows the ** spread of the user's options."
 )
 ASSUMPTIONS = ["declared types come from annotations; numpy arrays are recognised by their annotation names", "the unflipped-return rule reads the alternatives of the symbolic return value (pstatic/sym.py); the convention tables are compared with the literals of the source and of docs/source/conventions.md"]
 
